@@ -71,9 +71,29 @@ debug = 0
     return d
 
 
+class CompilerHang(Exception):
+    pass
+
+
+# A proc macro under test that loops makes rustc run forever. Wall-clock time never decides a verdict: when the
+# compiler has not finished after this many seconds the whole check is INCONCLUSIVE (normal builds take < 2 min).
+COMPILE_WATCHDOG = int(os.environ.get("VERIF_COMPILE_WATCHDOG", "1500"))
+
+
 def cargo(args, d):
-    return subprocess.run(["cargo"] + args + ["--offline", "--manifest-path", os.path.join(d, "Cargo.toml")],
-                          env=ENV, stdout=subprocess.PIPE, stderr=subprocess.PIPE, text=True)
+    import signal
+    p = subprocess.Popen(["cargo"] + args + ["--offline", "--manifest-path", os.path.join(d, "Cargo.toml")],
+                         env=ENV, stdout=subprocess.PIPE, stderr=subprocess.PIPE, text=True, start_new_session=True)
+    try:
+        out, err = p.communicate(timeout=COMPILE_WATCHDOG)
+    except subprocess.TimeoutExpired:
+        try:
+            os.killpg(p.pid, signal.SIGKILL)
+        except OSError:
+            pass
+        p.communicate()
+        raise CompilerHang(" ".join(args))
+    return subprocess.CompletedProcess(p.args, p.returncode, out, err)
 
 
 def observe_rejects(name, header, lines):
@@ -720,4 +740,7 @@ def main(pid, tier, seed, rest):
     if p.returncode != 0:
         print(p.stdout[-6000:])
         return inconclusive(pid, "harness build failed against /repo working tree")
-    return {"C15": c15, "C16": c16, "C17": c17}[pid](tier, seed, rest)
+    try:
+        return {"C15": c15, "C16": c16, "C17": c17}[pid](tier, seed, rest)
+    except CompilerHang as e:
+        return inconclusive(pid, f"compiler did not terminate within {COMPILE_WATCHDOG} s (cargo {e}); a macro under test may be looping")
